@@ -19,7 +19,7 @@ def roll_episode(rng, cls_name):
 
     cls = getattr(tc, cls_name)
     ch = tc.FutureChain(cls, "2019-01", "2020-07")
-    k = rng.randint(0, len(ch.contracts) - 3)
+    k = rng.randint(0, len(ch.contracts) - 4)
     fut = ch.contracts[k]
     ltd, exp = fut.last_trading_date, fut.expiry
     ltd = ltd.to_pydatetime() if hasattr(ltd, "to_pydatetime") else ltd
@@ -43,11 +43,12 @@ def roll_episode(rng, cls_name):
         lat_us = (sec + rng.choice([0, 1, 30])) * 1_000_000
         cross = us(ltd) + rng.choice([0, 1, lat_us - sec * 1_000_000])
     grid = [us(d) for d in days]
-    syms = [c.symbol for c in ch.contracts[k:k + 3]]
+    month = 1 if rng.random() < 0.25 else 0   # the chain resolves to the contract after the lead
+    syms = [c.symbol for c in ch.contracts[k:k + 3 + month]]
     events = []
     mids = {s: Fraction(rng.randint(400, 12000), 4) for s in syms}
     for t in grid:
-        for s_, c in zip(syms, ch.contracts[k:k + 3]):
+        for s_, c in zip(syms, ch.contracts[k:k + 3 + month]):
             ce = c.expiry.to_pydatetime() if hasattr(c.expiry, "to_pydatetime") else c.expiry
             if from_us(t) >= ce:
                 continue  # no quotes after the contract expired
@@ -59,7 +60,7 @@ def roll_episode(rng, cls_name):
             mids[s_] = mids[s_] * Fraction(rng.randint(98, 102), 100)
             events.append(["q", s_, cross, fr(F(float(mids[s_]))), fr(F(float(mids[s_])))])
         events.sort(key=lambda e: e[2])
-    case = dict(contracts=[], chains=[dict(name="c", cls=cls_name, start="2019-01", end="2020-07", month=0)],
+    case = dict(contracts=[], chains=[dict(name="c", cls=cls_name, start="2019-01", end="2020-07", month=month)],
                 fees=rng.choice([["0", "0", "0"], ["0", "1/2000", "0"]]), deposit="10000000", grid=grid, events=events,
                 latency=lat_us, delay=0, markov=False, warmup=None,
                 space=dict(kind="box", low="-1", high="1", keys=["@c"], asWeights=1, fractional=1,
@@ -80,6 +81,7 @@ def roll_episode(rng, cls_name):
         acts = [big if i < cut else small if i < j + 1 else later for i in range(len(grid) - 1)]
         case["ops"] = [["reset", None, 0]] + [["step", [fr(a)]] for a in acts]
     case["kind"] = "episode"
+    case["peek_chain"] = rng.random() < 0.3
     if lat_us:
         case["_latency_roll"] = True
     case["_roll"] = dict(symbol=fut.symbol, ltd=us(ltd), expiry=us(exp))
@@ -96,9 +98,9 @@ class C11(Prop):
     rule = ("(a) lead resolution, exhaustive over each built-in class's chain span: FutureChain.lead_contract(now) for "
             "month offsets 0..2 with `now` at every exact last-trading instant, 1 microsecond before and after, and "
             "mid-way between consecutive ones - compared with the model's bisect and with the rule 'earliest last-"
-            "trading date strictly later than now'; (b) episodes trading a chain across a roll (long and short targets, "
+            "trading date strictly later than now'; (b) episodes trading a chain (month offset 0, in a quarter of the cases 1) across a roll (long and short targets, "
             "spreads, thresholds up to 25%, grids with gaps shorter than the roll window; decisions taken seconds before a last trading date "
-            "and executed, after the latency, past it): after every rebalance every "
+            "and executed, after the latency, past it; in 30% the policy calls chain.lead_contract(month=1) between steps): after every rebalance every "
             "other contract of the chain is flat and nothing is held at or after its expiry. Non-trivial = a lead "
             "table, or an episode in which a position was actually rolled; distinct = distinct cases")
     nontrivial_tags = {"lead-table", "rolled"}
@@ -171,7 +173,9 @@ class C11(Prop):
             now_exec = o.get("rec_time")
             if now_exec is None:
                 continue
-            lead = next(c.symbol for c in chain.contracts if ltd[c.symbol] > now_exec)
+            month = case["chains"][0].get("month", 0)
+            li = next(i for i, c in enumerate(chain.contracts) if ltd[c.symbol] > now_exec)
+            lead = chain.contracts[li + month].symbol
             for k, q in o["pos"].items():
                 if q != 0:
                     held_syms.add(k)
@@ -186,6 +190,8 @@ class C11(Prop):
             r.tags.add("rolled")
         if case.get("_latency_roll"):
             r.tags.add("latency-window-crosses-roll")
+        if case["chains"][0].get("month", 0):
+            r.tags.add("month-offset")
         return r
 
 
